@@ -246,7 +246,7 @@ def dags_equal_mod_sharing(a, b, ulps=4):
 COMM = {"OP_ADD", "OP_MUL", "OP_MIN", "OP_MAX"}
 
 
-def ac_normal(s):
+def ac_canon(s, shift=4):
     """AC-normal form of the DAG's tree unfolding, hash-consed bottom-up:
     same-opcode chains of + * min max become sorted multisets, square(a) inside a
     product is a*a, min/max multisets are deduplicated.  Constants are rounded
@@ -273,22 +273,24 @@ def ac_normal(s):
             if (u & 0x7f800000) == 0x7f800000 and (u & 0x7fffff):
                 canon.append(("c", "nan"))
             else:
-                canon.append(("c", u >> 4))
+                canon.append(("c", u >> shift))
         elif k in ("v", "o"):
             canon.append((k, n[1]))
         elif k == "n":
             canon.append(("n", n[1]))
-        elif k == "u":
+        elif k == "u" and n[1] != "OP_SQUARE":
             canon.append(("u", n[1], canon[n[2]]))
-        elif k == "b":
-            op = n[1]
+        elif k in ("b", "u"):
+            op = n[1] if k == "b" else "OP_MUL"
             if op in COMM:
-                items = flat(op, canon[n[2]]) + flat(op, canon[n[3]])
+                # square(a) is the product a * a wherever it stands (Tree::binary rewrites a * a into
+                # square(a), and which factors of a product meet first depends on pointer order)
+                items = (flat(op, canon[n[2]]) + flat(op, canon[n[3]])) if k == "b" else flat(op, canon[n[2]]) * 2
                 # fold the constants of the multiset (the code folds whichever
                 # constants happen to be adjacent in pointer order)
                 cs = [it for it in items if it[0] == "c" and it[1] != "nan"]
                 if len(cs) > 1:
-                    vals = [h2f("%08x" % (it[1] << 4)) for it in cs]
+                    vals = [h2f("%08x" % (it[1] << shift)) for it in cs]
                     if op == "OP_MIN":
                         v = min(vals)
                     elif op == "OP_MAX":
@@ -305,7 +307,7 @@ def ac_normal(s):
                         u = 0x7f800000
                     if (u & 0x7fffffff) == 0:
                         u = 0
-                    items = [it for it in items if not (it[0] == "c" and it[1] != "nan")] + [("c", u >> 4)]
+                    items = [it for it in items if not (it[0] == "c" and it[1] != "nan")] + [("c", u >> shift)]
                 items = sorted(items, key=repr)
                 if op in ("OP_MIN", "OP_MAX"):
                     ded = []
@@ -318,7 +320,144 @@ def ac_normal(s):
                 canon.append(("b", op, canon[n[2]], canon[n[3]]))
         else:
             canon.append(tuple([k] + [canon[i] for i in n[1:]]))
-    return hashlib.sha256(repr(canon[-1]).encode()).hexdigest()
+    return canon[-1]
+
+
+def ac_normal(s):
+    return hashlib.sha256(repr(ac_canon(s)).encode()).hexdigest()
+
+
+def ac_equal_tol(s1, s2, ulps=64):
+    """AC-normal forms equal up to [ulps] on constants (no quantisation boundary): the multisets of
+    commutative chains are matched greedily with the tolerant comparison"""
+    import sys
+    sys.setrecursionlimit(max(10000, sys.getrecursionlimit()))
+    a, b = ac_canon(s1, 0), ac_canon(s2, 0)
+    memo = {}
+
+    def ord32(u):
+        return u if u < 0x80000000 else 0x80000000 - u
+
+    def eq(x, y):
+        k = (id(x), id(y))
+        if k in memo:
+            return memo[k]
+        r = eq1(x, y)
+        memo[k] = r
+        return r
+
+    def eq1(x, y):
+        if x[0] != y[0] or len(x) != len(y):
+            return False
+        if x[0] == "c":
+            if x[1] == "nan" or y[1] == "nan":
+                return x[1] == y[1]
+            return abs(ord32(x[1]) - ord32(y[1])) <= ulps
+        if x[0] == "ac":
+            if x[1] != y[1] or len(x[2]) != len(y[2]):
+                return False
+            rest = list(y[2])
+            for it in x[2]:
+                for j, jt in enumerate(rest):
+                    if eq(it, jt):
+                        del rest[j]
+                        break
+                else:
+                    return False
+            return True
+        for p, q in zip(x[1:], y[1:]):
+            if isinstance(p, tuple) and isinstance(q, tuple):
+                if not eq(p, q):
+                    return False
+            elif p != q:
+                return False
+        return True
+    return eq(a, b)
+
+
+def eval_dump(s, x, y, z, vars_):
+    """value of a DAG dump in doubles (reference semantics of the opcodes; oracles / remaps unsupported -> None)"""
+    nodes = parse_dump(s)
+    val = []
+    nan = float("nan")
+
+    def un(op, a):
+        try:
+            if op == "OP_SQUARE": return a * a
+            if op == "OP_SQRT": return math.sqrt(a) if a >= 0 else nan
+            if op == "OP_NEG": return -a
+            if op == "OP_SIN": return math.sin(a)
+            if op == "OP_COS": return math.cos(a)
+            if op == "OP_TAN": return math.tan(a)
+            if op == "OP_ASIN": return math.asin(a) if -1 <= a <= 1 else nan
+            if op == "OP_ACOS": return math.acos(a) if -1 <= a <= 1 else nan
+            if op == "OP_ATAN": return math.atan(a)
+            if op == "OP_EXP": return math.exp(a)
+            if op == "OP_ABS": return abs(a)
+            if op == "OP_LOG": return math.log(a) if a > 0 else (-math.inf if a == 0 else nan)
+            if op == "OP_RECIP": return 1.0 / a if a != 0 else math.copysign(math.inf, a)
+            if op == "CONST_VAR": return a
+        except (OverflowError, ValueError):
+            return nan
+        return None
+
+    def bi(op, a, b):
+        try:
+            if op == "OP_ADD": return a + b
+            if op == "OP_MUL": return a * b
+            if op == "OP_MIN": return b if b < a else a
+            if op == "OP_MAX": return b if a < b else a
+            if op == "OP_SUB": return a - b
+            if op == "OP_DIV": return a / b if b != 0 else (nan if a == 0 or a != a else math.copysign(math.inf, a) * math.copysign(1.0, b))
+            if op == "OP_ATAN2": return math.atan2(a, b)
+            if op == "OP_POW": return math.pow(a, b)
+            if op == "OP_NTH_ROOT":
+                if a < 0:
+                    return -math.pow(-a, 1.0 / b) if int(b) & 1 else nan
+                return math.pow(a, 1.0 / b)
+            if op == "OP_MOD":
+                if b == 0 or a != a or b != b or math.isinf(a) or math.isinf(b): return nan
+                r = math.fmod(a, b)
+                if r != 0 and (r < 0) != (b < 0): r += b
+                return r
+            if op == "OP_NANFILL": return b if a != a else a
+            if op == "OP_COMPARE": return -1.0 if a < b else (1.0 if a > b else 0.0)
+        except (OverflowError, ValueError, ZeroDivisionError):
+            return nan
+        return None
+    for n in nodes:
+        k = n[0]
+        if k == "X": v = x
+        elif k == "Y": v = y
+        elif k == "Z": v = z
+        elif k == "c": v = h2f(n[1])
+        elif k == "v":
+            i = int(n[1]); v = vars_[i] if 0 <= i < len(vars_) else 0.0
+        elif k == "u": v = un(n[1], val[n[2]])
+        elif k == "b": v = bi(n[1], val[n[2]], val[n[3]])
+        else: return None
+        if v is None:
+            return None
+        val.append(v)
+    return val[-1] if val else None
+
+
+def dumps_numerically_equal(a, b, rng, nvars=8, npts=12):
+    """last-resort comparison of two optimiser outputs: the same function at random points (the two
+    may differ by a 1e-7 residue in an affine constant term accumulated with / without fused multiply-add)"""
+    good = 0
+    for _ in range(npts):
+        x, y, z = (rng.uniform(-2, 2) for _ in range(3))
+        vs = [rng.uniform(-2, 2) for _ in range(nvars)]
+        va, vb = eval_dump(a, x, y, z, vs), eval_dump(b, x, y, z, vs)
+        if va is None or vb is None:
+            return False
+        if not (math.isfinite(va) and math.isfinite(vb)):
+            continue
+        if abs(va - vb) > 1e-4 * (1 + abs(va)):
+            return False
+        good += 1
+    return good >= npts // 2
 
 
 def dump_stats(s):
@@ -346,8 +485,6 @@ def value_ok(impl_hex, mline):
         return True, True
     if sens > 1e-3 * (1 + abs(ref)):         # ill-conditioned / near a discontinuity
         return True, True
-    if not math.isfinite(v):
-        return False, False
     tol = 2e-4 * (1.0 + mx) + 200 * sens
     # numerically fragile points (a discontinuous operation - mod, compare, a min/max tie - whose
     # arguments do not depend on the perturbed inputs, cos of a huge constant, ...): the model's own
@@ -359,6 +496,8 @@ def value_ok(impl_hex, mline):
         noise = h2d(f[6])
         if not (16 * noise <= tol):
             return True, True
+    if not math.isfinite(v):
+        return False, False
     return abs(v - ref) <= tol, False
 
 
